@@ -1475,9 +1475,20 @@ class GeoboxTiles:
         A: Affine,
     ) -> Dict[Tuple[int, int], List[Tuple[int, int]]]:
         deps: Dict[Tuple[int, int], List[Tuple[int, int]]] = {}
+        NY, NX = src.base.shape.yx
 
         for idx in self._all_tiles():
             bbox = self.pix_bbox(idx).transform(A).round()
+            if (
+                bbox.right <= 0
+                or bbox.left >= NX
+                or bbox.top <= 0
+                or bbox.bottom >= NY
+            ):
+                # no overlap with the source raster: the clamping in
+                # range_from_bbox would otherwise report its nearest edge tiles
+                deps[idx] = []
+                continue
             src_idx = list(src.tiles(bbox))
             deps[idx] = src_idx
 
